@@ -314,8 +314,13 @@ class Evaluator:
                 import math as _math
                 return getattr(_math, name.split(".")[1])(*vals)
             if name in ("round", "sorted", "tuple", "frozenset", "str", "bool", "dict", "enumerate", "zip", "reversed"):
+                kwv = {k: self.ev(v, loc) for k, v in kws if isinstance(k, str)} if name in ("dict", "sorted", "round") else {}
+                if name != "dict" and kwv and not (name == "sorted" and set(kwv) <= {"reverse"}):
+                    raise EvalUnsupported("call %s with keywords" % name)
+                if any(k is None or not isinstance(k, str) for k, _ in kws):
+                    raise EvalUnsupported("call %s with ** arguments" % name)
                 r_ = {"round": round, "sorted": sorted, "tuple": tuple, "frozenset": frozenset, "str": str, "bool": bool, "dict": dict,
-                      "enumerate": enumerate, "zip": zip, "reversed": reversed}[name](*vals)
+                      "enumerate": enumerate, "zip": zip, "reversed": reversed}[name](*vals, **kwv)
                 return list(r_) if name in ("enumerate", "zip", "reversed") else r_
         except TypeError:
             raise Crash("TypeError", show(t))
